@@ -1,5 +1,7 @@
 import A816.Model.Resolver
 import A816.Proofs.LabelScopes
+import A816.Proofs.Unrelated
+import A816.Proofs.UnrelatedPass
 import A816.Proofs.Replay
 /-!
 # C08 — Names resolve lexically; scopes isolate; named scopes export
@@ -353,5 +355,55 @@ example :
     LabelScopes.namesIn LabelCheck.labelNames Node.isSymbol S 1 ns 0 0 = ["a"] ∧
     LabelScopes.namesIn LabelCheck.labelNames Node.isSymbol S 0 ns 0 0 = ["a", "b"] := by
   decide
+
+/-! ## an unrelated definition -/
+open Unrel in
+/-- **an unrelated definition changes no lookup**: one more symbol — or label — named `z`, added to any scope `k`, changes the
+    lookup of no other name `n ≠ z`, started from any scope `c` (inside or outside `k`, an ancestor, a descendant, a sibling) -/
+theorem unrelated_definition_lookup (r : Resolver) (k : Nat) (z : String) (v : Int) (n : String) (hn : n ≠ z) (c : Nat) :
+    ({ withSymbol r k z v with current := c } : Resolver).valueFor n = ({ r with current := c } : Resolver).valueFor n ∧
+    ({ withLabel r k z v with current := c } : Resolver).valueFor n = ({ r with current := c } : Resolver).valueFor n :=
+  ⟨valueFor_withSymbol r k z v n hn c, valueFor_withLabel r k z v n hn c⟩
+
+open Unrel in
+/-- **… and the value of no expression that does not mention it**: every expression in which `z` does not occur as an
+    identifier evaluates — or fails — exactly as before, whatever scope it is evaluated in -/
+theorem unrelated_definition_eval (env : Env) (r : Resolver) (k : Nat) (z : String) (v : Int) (e : PExpr)
+    (hz : ENode.term .identifier z ∉ e.nodes) (c : Nat) :
+    evalP env ({ withSymbol r k z v with current := c } : Resolver) e = evalP env ({ r with current := c } : Resolver) e ∧
+    evalP env ({ withLabel r k z v with current := c } : Resolver) e = evalP env ({ r with current := c } : Resolver) e := by
+  have hne : ∀ n, ENode.term .identifier n ∈ e.nodes → n ≠ z := fun n hn hx => hz (by rw [← hx]; exact hn)
+  constructor
+  · unfold evalP
+    apply evalTokens_congr
+    intro n hn
+    unfold Resolver.look
+    rw [(unrelated_definition_lookup r k z v n (hne n hn) c).1]
+  · unfold evalP
+    apply evalTokens_congr
+    intro n hn
+    unfold Resolver.look
+    rw [(unrelated_definition_lookup r k z v n (hne n hn) c).2]
+
+
+open Unrel in
+/-- **adding an unrelated definition does not change the output** (programs without named scopes): for every node list
+    `a ++ b` none of whose nodes mentions `z` (`FreeN`: no expression of it names `z`, it is not the label / included binary
+    `z`), every position in it and every resolver state without named scopes — whatever the nesting of blocks, macro
+    applications and loop iterations around that position — the node list with one more definition `z = v` inserted there
+    gives the writer exactly the same `write_block` calls (or raises the same exception) as the node list without it.
+    `Unrel.output` is what `Program.resolve_labels` followed by `Program.emit` hands to the writer (the tail of
+    `Model/Program.assemble`). -/
+theorem unrelated_definition_output (env : Env) (z : String) (v : Int) (a b : List Node)
+    (hf : ∀ n ∈ a ++ b, FreeN z n) (r : Resolver)
+    (hk : ∀ i name, (r.scopes.getD i default).kind ≠ .named name) :
+    output env (a ++ Node.symbolConst z v :: b) r = output env (a ++ b) r :=
+  output_insert env v a b hf r hk
+
+/-- non-vacuity: nodes that do not mention `z`, and the scope kinds a program without `.scope` has -/
+example : Unrel.FreeN "z" (Node.ascii "hi") ∧ Unrel.FreeN "z" (Node.label "x") ∧ Unrel.FreeN "z" Node.scopeEnter ∧
+    (∀ name, ScopeKind.plain ≠ .named name) ∧ (∀ name, ScopeKind.internal ≠ .named name) :=
+  ⟨trivial, by show "x" ≠ "z"; decide, trivial, fun _ h => ScopeKind.noConfusion h, fun _ h => ScopeKind.noConfusion h⟩
+
 
 end A816.C08
